@@ -840,6 +840,24 @@ def rule_entries(rep, repo):
           accumulator=Mock("acc", {"output": q("acc_conv")}),
           weight_quantizer=q("w_conv"), w_shapes=(3, 3, 4, 8),
           bias_quantizer=None, b_shapes=None)
+  # mixed arithmetic families: fixed-point products accumulated in floating
+  # point (an unquantized bias with a float intermediate type), and the
+  # other way round
+  def qf(tag, bits):
+    o = ta.make_operand(pe, repo, "float", tag)
+    o.attrs["bits"] = bits
+    return o
+  add("QDense", "dense_facc", (None, 16),
+      multiplier=impl("m_dense_facc", "mul"),
+      accumulator=Mock("acc", {"output": qf("acc_dense_facc", 32)}),
+      weight_quantizer=q("w_dense_facc"), w_shapes=(16, 8),
+      bias_quantizer=None, b_shapes=None)
+  fm = impl("m_conv_fmul", "mul")
+  fm.attrs["output"] = qf("o_m_conv_fmul", 16)
+  add("QConv1D", "conv_fmul", (None, 8, 4), multiplier=fm,
+      accumulator=Mock("acc", {"output": q("acc_conv_fmul")}),
+      weight_quantizer=q("w_conv_fmul"), w_shapes=(3, 4, 8),
+      bias_quantizer=None, b_shapes=None)
   a_ = add("QActivation", "act", (None, 8))
   m_ = add("Add", "merge", [(None, 8), (None, 8), (None, 8)], n_in=3,
            multiplier=impl("m_merge", "add"))
@@ -906,6 +924,22 @@ def rule_entries(rep, repo):
           "parameters": RD(False, (3, 3, 4, 8), "sram", "bw_conv", False),
           "op_cost": N("cnt_conv") * (N("gf_m_conv") * OPc(
               "fpm_shifter", "gb_m_conv") + OPc("fpm_add", "bacc_conv"))},
+      "dense_facc": {
+          "inputs": RD(False, (None, 16), "dram", "bin0_dense_facc"),
+          "outputs": WR(False, (None, 7, "dense_facc"), "dram",
+                        "bout_dense_facc"),
+          "parameters": RD(False, (16, 8), "sram", "bw_dense_facc", False),
+          "op_cost": N("cnt_dense_facc") * (N("gf_m_dense_facc") * OPc(
+              "fpm_mul", "gb_m_dense_facc") + mk("fp32_add", (),
+                                                 [NF.const(32)]))},
+      "conv_fmul": {
+          "inputs": RD(False, (None, 8, 4), "dram", "bin0_conv_fmul"),
+          "outputs": WR(False, (None, 7, "conv_fmul"), "dram",
+                        "bout_conv_fmul"),
+          "parameters": RD(False, (3, 4, 8), "sram", "bw_conv_fmul", False),
+          "op_cost": N("cnt_conv_fmul") * (N("gf_m_conv_fmul") * OPc(
+              "fp16_mul", "gb_m_conv_fmul") + OPc("fpm_add",
+                                                  "bacc_conv_fmul"))},
       "act": {
           "inputs": RD(False, (None, 8), "dram", "bin0_act"),
           "outputs": WR(False, (None, 7, "act"), "dram", "bout_act"),
